@@ -30,7 +30,8 @@ MACRO_FRAGS = [
     "%lowcase(", "%sysprod(", "%sysmacexist(", "%*", "%* c;", "%*c'a;'b;", "%%", "%'", '%"', "%(", "%)", "%=", "%^", "%~", "a=1", "a=", "=b", "a,b", ",", "(a,b)", "(", ")", ")", " eq ",
     " ne ", " and ", " or ", " not ", " in ", " lt ", " ge ", "eq", "and1", "1+1", "1 + 2", "2**3", "a b", "/ ", "/ readonly", "readonly", " / ", "name:", "%lbl:", "%lbl :", "%m:",
     "%let a=b;", "%put x;", "%do i=1 %to 3;", "%end;", "%if 1 %then", "%macro m(a,b=1);", "%mend;", "%m(1,b=2)", "%eval(1+2)", "%str(a;b)", "%nrstr(&a%b)", "%sysfunc(f(1,2),z5.)",
-    "%scan(a b,1)", "%substr(abc,1,2)", "\"&a\"", "\"%m\"", "\"a&b.c\"", "\"%let\"", "'&a'", "%do %while(", "%do %until(", "%do;",
+    "%scan(a b,1)", "%substr(abc,1,2)", "a&b.c", "n&i.", "&i.x", "p&q", "pre&i._suf=1", "(a", "(a=", "a=&b", "b=2)", "x&y.z=1,", "%m(a&b.c)", "%m(a b=1)", "%m(a\n=1)",
+    "%m(a/*c*/=1)", "%eval(a\nb +1)", "a\nb ", "x\n y  *", "first\nsecond %then", "%sysevalf(1.5x\n y  * 2)", "a%*c;b", "%*c;", "%m(%n)", "%m(%n=1)", "%m(a%n b)", "name ", " name", "=%m", "%mend m;", "%macro m;", "* x %m;", "*\n%x;", "\"&a\"", "\"%m\"", "\"a&b.c\"", "\"%let\"", "'&a'", "%do %while(", "%do %until(", "%do;",
 ]
 ALL_FRAGS = OPEN_FRAGS + MACRO_FRAGS * 2
 
@@ -111,6 +112,23 @@ def main():
             s = soup(rng, ALL_FRAGS, a.maxfrags)
             for i in range(len(s) + 1):
                 put(s[:i]); k += 1
+    elif a.stream in ("nl", "mb"):
+        # mutate programs: line feeds / multi-byte characters at random positions of soup, grammar-ish and string inputs
+        ins = ["\n"] if a.stream == "nl" else ["é", "日", "𝒳", "\u00a0", "ü"]
+        for _ in range(a.n):
+            base = rng.choice([soup(rng, ALL_FRAGS, a.maxfrags), gen_strings(rng), gen_numeric(rng), soup(rng, MACRO_FRAGS, 6)])
+            cs = list(base)
+            for _ in range(rng.randint(1, 4)):
+                if not cs:
+                    break
+                i = rng.randrange(len(cs) + 1)
+                if a.stream == "nl" and i < len(cs) and cs[i] == " " and rng.random() < 0.5:
+                    cs[i] = "\n"
+                elif a.stream == "mb" and i < len(cs) and cs[i].isalpha() and cs[i].isascii() and rng.random() < 0.6:
+                    cs[i] = rng.choice(ins)
+                else:
+                    cs.insert(i, rng.choice(ins))
+            put("".join(cs))
     else:
         sys.exit("unknown stream")
 
